@@ -34,7 +34,9 @@ theorem shape_facts :
     Gen.ConcFacts.onceTablesGuarded = Gen.ConcFacts.onceTables ∧
     Gen.ConcFacts.registryAccessorsLocked = Gen.ConcFacts.registryAccessors ∧
     Gen.ConcFacts.registryWritersExclusive = true ∧
-    Gen.ConcFacts.aberrantNoLockFreePublishWhileDeriving = true ∧ Gen.ConcFacts.aberrantLockedMapOnlyUnderLock = true := by decide
+    Gen.ConcFacts.aberrantNoLockFreePublishWhileDeriving = true ∧ Gen.ConcFacts.aberrantLockedMapOnlyUnderLock = true ∧
+    Gen.ConcFacts.extInfoFastPathsAtomic = true ∧ Gen.ConcFacts.extInfoSlowPathShape = true ∧
+    Gen.ConcFacts.extInfoFlagOnlyAtomicOnLazyPath = true := by decide
 
 /-- the three initialisers of the code have the protocol shape the proofs need (flag stored after
 the body, slow path under the lock, and — where the re-check reads the structure — a first write
@@ -51,6 +53,12 @@ theorem file_shape (n : Nat) : (fileCfg n).Safe :=
      have h : Gen.ConcFacts.fileBodySetsL2First = true := by decide
      show 0 < (if Gen.ConcFacts.fileBodySetsL2First then n + 1 else n)
      rw [h]; simp⟩
+
+theorem extInfo_shape (n : Nat) : (extInfoCfg n).Safe :=
+  ⟨(by decide : (if Gen.ConcFacts.extInfoSlowPathShape && Gen.ConcFacts.extInfoFlagOnlyAtomicOnLazyPath
+      then Order.bodyThenStore else .storeThenBody) = .bodyThenStore),
+   (by decide : (Gen.ConcFacts.extInfoFastPathsAtomic && Gen.ConcFacts.extInfoSlowPathShape) = true),
+   fun h => by cases h⟩
 
 theorem once_shape (n : Nat) : (onceCfg n).Safe :=
   ⟨(by decide : (if Gen.ConcFacts.syncOnceIsDoubleChecked then Order.bodyThenStore else .storeThenBody) = .bodyThenStore),
@@ -241,6 +249,15 @@ theorem once_table_safe (n : Nat) {s : State} (r : Reachable (onceCfg n) s) :
   ⟨body_at_most_once (once_shape n) r, fun _ _ hi hj => mutual_exclusion (once_shape n) r hi hj,
    fun _ h => (reader_sees_complete (once_shape n) r).1 h, fun _ obs h => (reader_sees_complete (once_shape n) r).2 obs h⟩
 
+/-- ExtensionInfo.lazyInitSlow (legacy, hand-built and generated extension descriptors): initFromLegacy /
+initToLegacy / the converter and field info are built at most once, and every caller of TypeDescriptor, New,
+Zero, ValueOf, InterfaceOf, IsValid* that gets past its lock-free stage check reads them complete. -/
+theorem extensionInfo_lazyInit_safe (n : Nat) {s : State} (r : Reachable (extInfoCfg n) s) :
+    s.runs ≤ 1 ∧ (∀ i j, inCS (s.pc i) = true → inCS (s.pc j) = true → i = j) ∧
+    (∀ i, s.pc i = .read → s.data = List.range n) ∧ (∀ i obs, s.pc i = .done obs → obs = List.range n) :=
+  ⟨body_at_most_once (extInfo_shape n) r, fun _ _ hi hj => mutual_exclusion (extInfo_shape n) r hi hj,
+   fun _ h => (reader_sees_complete (extInfo_shape n) r).1 h, fun _ obs h => (reader_sees_complete (extInfo_shape n) r).2 obs h⟩
+
 end dcl
 
 /-! ## The global registries under globalMutex -/
@@ -430,6 +447,17 @@ theorem flag_before_body_breaks :
   intro bad
   let tr : List Dcl.Ev := [.fast 0 false, .lock 0, .recheck 0 false, .store 0, .write 0 0, .fast 1 true, .read 1]
   exact ⟨Dcl.run bad tr, Dcl.run_reachable bad tr, by decide, by decide⟩
+
+/-- If a helper called from inside lazyInitSlow's body stored the stage word xi.init with a plain write
+(InitExtensionInfo from initFromLegacy), the store would not be ordered after the body's writes: a
+goroutine whose lock-free `atomic.LoadUint32(&xi.init)` sees the stage already announced uses the
+ExtensionInfo while only one of its three parts is written. -/
+theorem extInfo_plain_stage_store_breaks :
+    let bad : Dcl.Cfg := { extInfoCfg 3 with order := .storeThenBody }
+    ∃ s, Dcl.Reachable bad s ∧ s.pc 1 = .done [0] ∧ complete bad = [0, 1, 2] ∧ s.pc 0 = .body 1 := by
+  intro bad
+  let tr : List Dcl.Ev := [.fast 0 false, .lock 0, .recheck 0 false, .store 0, .write 0 0, .fast 1 true, .read 1]
+  exact ⟨Dcl.run bad tr, Dcl.run_reachable bad tr, by decide, by decide, by decide⟩
 
 /-- If the slow path did not take the lock, the body could run twice (and the structure would be
 written twice). -/
